@@ -6,7 +6,7 @@
    [stream_done results ch t s]: every goroutine finished, t received exactly
    [results] and then the close, the last value is the returned one, the
    channel was closed exactly once and is drained. *)
-From Coq Require Import List ZArith Lia.
+From Coq Require Import List ZArith.
 From GS Require Import Model.Chan Proofs.Chan.
 Import ListNotations.
 
@@ -87,16 +87,22 @@ Print Assumptions C20_forwarder_stream_values.
 Example C20_stream_values_ex :
   is_decreasing_stream (fun v => length v = 3) (fun v => nth 1 v 0%Z)
     [[1; 5; 1]; [1; 3; 0]; [1; 2; 1]]%Z.
-Proof. split; [repeat constructor|simpl; repeat split; reflexivity]. Qed.
+Proof. exact ex_decreasing_stream. Qed.
 
 Example C20_rounds_ex : forall n k, rounds n k (round_robin n k).
 Proof. exact round_robin_rounds. Qed.
 
 Example C20_forwarder_stream_values_ex :
-  (forall v, (fun v => 2 <= length v) v -> (fun v => 2 <= length v) (trim_result 1 v)) /\
-  (forall v, (fun v => nth 1 v 0%Z) (trim_result 1 v) = (fun v => nth 1 v 0%Z) v).
-Proof.
-  split.
-  - intros [|a [|b v]] H; simpl in *; try lia. destruct (Z.eqb a 1); simpl; lia.
-  - intros [|a [|b v]]; simpl; try reflexivity. destruct (Z.eqb a 1); reflexivity.
-Qed.
+  (forall v, 2 <= length v -> 2 <= length (trim_result 1 v)) /\
+  (forall v, nth 1 (trim_result 1 v) 0%Z = nth 1 v 0%Z).
+Proof. exact ex_trim_hyps. Qed.
+
+Example C20_accepts_trace_ex :
+  accepts_trace [[1; 5]; [1; 3]]%Z 3
+    [OReceived [1; 5]%Z; OReceived [1; 3]%Z; OClosedEv; OReturned [1; 3]%Z] = true /\
+  accepts_trace [[1; 5]; [1; 3]]%Z 0
+    [OReceived [1; 3]%Z; OReceived [1; 5]%Z; OClosedEv; OReturned [1; 3]%Z] = false /\
+  accepts_trace [[1; 5]; [1; 3]]%Z 0
+    [OReceived [1; 5]%Z; OReceived [1; 3]%Z; OClosedEv; OReturned [1; 5]%Z] = false /\
+  accepts_trace [[1; 5]; [1; 3]]%Z 1 [OReceived [1; 5]%Z; OReceived [1; 3]%Z] = false.
+Proof. exact ex_accepts. Qed.
